@@ -41,7 +41,8 @@ pub fn decode_mutation(bytes: &[Word]) -> Result<Mutation, MutationDecodeError> 
     // Saturating cast
     let key_len: usize = bytes[0].try_into().unwrap_or(usize::MAX);
     let key_end = 1usize.saturating_add(key_len);
-    if bytes.len() < key_end {
+    // The value length is read from `bytes[key_end]`, so it has to be in bounds too.
+    if bytes.len() <= key_end {
         return Err(MutationDecodeError::WordsTooShort);
     }
     let key = bytes[1..key_end].to_vec();
